@@ -4,3 +4,4 @@ CONSTRAINT HighWater
 INVARIANT TypeOK
 POSTCONDITION TraceAccepted
 CHECK_DEADLOCK FALSE
+CONSTANT LeafElemErrAtList = FALSE
